@@ -16,7 +16,8 @@ unencrypted heads:
   field named in the configuration but first set by an update is written in clear (known finding).
 * `keyless_stores_only_clear` / `keyless_stores_nothing_encrypted` — a receiver without keys stores only values of
   clear blocks, hence none of an encrypted field's local writes.
-* `linked_keys_in_keystore` — every key a local block links is in the key store.
+* `receiver_stores_only_readable` / `unheld_key_never_stored` / `more_keys_more_stored` / `all_keys_store_everything` —
+  receivers holding some, more, or all of the keys.
 * `key_holder_reads_back` — with the key, decrypting what was encrypted gives the written value.
 -/
 namespace Defra.Encrypt
@@ -98,6 +99,87 @@ theorem keyless_stores_nothing_encrypted (c : Cfg) (hd : c.isDoc = true) (fs : L
   have := doc_encrypted_never_clear c hd fs ops b hb1 hr hfs
   rw [this] at hpl; cases hpl
 
+/-! ### receivers holding some of the keys -/
+
+/-- **a receiver stores only what it can read**: every value a node holding the key blocks `keys` writes to its own
+    stores comes from a field block that is in clear in the shared store or whose linked key the node holds -/
+theorem receiver_stores_only_readable (keys : List Key) (blocks : List Blk) :
+    ∀ p ∈ stored keys blocks, ∃ b ∈ blocks, b.field = some p.2 ∧ b.op = p.1 ∧
+      (b.enc = none ∨ ∃ k ∈ keys, b.enc = some k) := by
+  intro p hp
+  unfold stored at hp
+  obtain ⟨b, hb, hbp⟩ := List.mem_filterMap.mp hp
+  refine ⟨b, hb, ?_⟩
+  cases hf : b.field with
+  | none => simp [hf] at hbp
+  | some f =>
+    simp only [hf] at hbp
+    by_cases hc : canRead keys b = true
+    · simp only [hc, if_true, Option.some.injEq] at hbp
+      subst hbp
+      refine ⟨rfl, rfl, ?_⟩
+      unfold canRead at hc
+      cases he : b.enc with
+      | none => exact Or.inl rfl
+      | some k =>
+        simp only [he] at hc
+        exact Or.inr ⟨k, by simpa using hc, rfl⟩
+    · simp [hc] at hbp
+
+/-- **a value under a key the receiver does not hold is never stored**, whatever else it holds -/
+theorem unheld_key_never_stored (keys : List Key) (blocks : List Blk) (k : Key) (hk : k ∉ keys)
+    (op : Nat) (f : FName)
+    (hall : ∀ b ∈ blocks, b.field = some f → b.op = op → b.enc = some k) : (op, f) ∉ stored keys blocks := by
+  intro hp
+  obtain ⟨b, hb, hf, ho, hr⟩ := receiver_stores_only_readable keys blocks (op, f) hp
+  have he := hall b hb hf ho
+  rcases hr with hn | ⟨k', hk', he'⟩
+  · rw [hn] at he; cases he
+  · rw [he'] at he
+    cases he
+    exact hk hk'
+
+/-- more keys never lose a value: what a receiver stores grows with the keys it holds -/
+theorem more_keys_more_stored (keys keys' : List Key) (hsub : ∀ k ∈ keys, k ∈ keys') (blocks : List Blk) :
+    ∀ p ∈ stored keys blocks, p ∈ stored keys' blocks := by
+  intro p hp
+  unfold stored at hp ⊢
+  obtain ⟨b, hb, hbp⟩ := List.mem_filterMap.mp hp
+  refine List.mem_filterMap.mpr ⟨b, hb, ?_⟩
+  cases hf : b.field with
+  | none => simp [hf] at hbp
+  | some f =>
+    simp only [hf] at hbp ⊢
+    by_cases hc : canRead keys b = true
+    · have hc' : canRead keys' b = true := by
+        unfold canRead at hc ⊢
+        cases he : b.enc with
+        | none => rfl
+        | some k =>
+          simp only [he] at hc ⊢
+          have : k ∈ keys := by simpa using hc
+          simpa using hsub k this
+      simpa [hc, hc'] using hbp
+    · simp [hc] at hbp
+
+/-- **a holder of every linked key reads everything**: its stores receive the value of every field block -/
+theorem all_keys_store_everything (keys : List Key) (blocks : List Blk)
+    (hall : ∀ b ∈ blocks, ∀ k, b.enc = some k → k ∈ keys) :
+    stored keys blocks = blocks.filterMap (fun b => b.field.map (fun f => (b.op, f))) := by
+  unfold stored
+  induction blocks with
+  | nil => rfl
+  | cons b rest ih =>
+    have ih' := ih (fun b' hb' => hall b' (List.mem_cons_of_mem _ hb'))
+    have hc : canRead keys b = true := by
+      unfold canRead
+      cases he : b.enc with
+      | none => rfl
+      | some k => simpa using hall b (List.mem_cons_self) k he
+    cases hf : b.field with
+    | none => simp [hf, ih']
+    | some f => simp [hf, hc, ih']
+
 /-- **Key holder.** Decrypting with the linked key what `encryptBlock` produced gives the written value back
     (for every cipher satisfying the soundness law assumed of AES-GCM). -/
 theorem key_holder_reads_back {K P C} (c : Cipher K P C) (k : K) (p : P) : roundTrip c k p = some p :=
@@ -115,6 +197,10 @@ example : ((run (some ⟨false, ["a"]⟩) ["a"] [.twin ["a"], .update ["a"]]).bl
 
 /-- without encryption everything is clear -/
 example : (run none ["a"] [.update ["a"]]).blocks.filterMap Blk.plain = [(0, "a"), (1, "a")] := by decide
+
+/-- a receiver holding only the key of field `a` of a field-level encrypted document stores `a`, not `b` -/
+example : stored [⟨0, some "a"⟩] (run (some ⟨false, ["a", "b"]⟩) ["a", "b"] []).blocks = [(0, "a")] := by decide
+example : stored [⟨0, some "a"⟩, ⟨1, some "b"⟩] (run (some ⟨false, ["a", "b"]⟩) ["a", "b"] []).blocks = [(0, "a"), (0, "b")] := by decide
 
 /-- the abstract cipher has a model -/
 example : ∃ c : Cipher Nat Nat (Nat × Nat), ∀ k p, roundTrip c k p = some p :=
